@@ -22,22 +22,35 @@ import (
 // is compared with the suffix of the model sequence; a sample of stop positions is also
 // exercised as a real history Scan×k → Close → read offsets → resume.
 
-type c09Filter struct{ skipN, skipW, skipR bool }
+// c09Filter: skip flags plus, optionally, filter callbacks that reject by id (pred > 0:
+// elements whose id modulo pred is 0 are rejected; pred == 1 rejects every element of the
+// kinds that are not skipped, which empties whole blocks through the callback path).
+type c09Filter struct {
+	skipN, skipW, skipR bool
+	pred                int64
+}
+
+func (f c09Filter) reject(id int64) bool { return f.pred > 0 && id%f.pred == 0 }
 
 func (f c09Filter) keep(o osm.Object) bool {
-	switch o.(type) {
+	switch v := o.(type) {
 	case *osm.Node:
-		return !f.skipN
+		return !f.skipN && !f.reject(int64(v.ID))
 	case *osm.Way:
-		return !f.skipW
+		return !f.skipW && !f.reject(int64(v.ID))
 	case *osm.Relation:
-		return !f.skipR
+		return !f.skipR && !f.reject(int64(v.ID))
 	}
 	return true
 }
 
 func (f c09Filter) apply(s *osmpbf.Scanner) {
 	s.SkipNodes, s.SkipWays, s.SkipRelations = f.skipN, f.skipW, f.skipR
+	if f.pred > 0 {
+		s.FilterNode = func(n *osm.Node) bool { return !f.reject(int64(n.ID)) }
+		s.FilterWay = func(w *osm.Way) bool { return !f.reject(int64(w.ID)) }
+		s.FilterRelation = func(r *osm.Relation) bool { return !f.reject(int64(r.ID)) }
+	}
 }
 
 // c09Huge: offsets beyond 32 bits. The stream is virtual: a header, K identical ~16 MiB filler
@@ -229,8 +242,11 @@ func c09Exec(c fw.Case) *fw.Result {
 	data, lay := f.Encode(nil)
 	procs := int(c.Int("procs"))
 	m := int(c.Int("skipmask"))
-	flt := c09Filter{m&1 != 0, m&2 != 0, m&4 != 0}
+	flt := c09Filter{skipN: m&1 != 0, skipW: m&2 != 0, skipR: m&4 != 0, pred: c.Int("pred")}
 	key := fmt.Sprintf("C09/procs%d/skip%d", procs, m)
+	if flt.pred > 0 {
+		key += fmt.Sprintf("/pred%d", flt.pred)
+	}
 
 	// model: filtered sequence with the block of each object
 	var want []pbfw.Expect
@@ -437,7 +453,7 @@ func c09Cases(tier string, seed uint64) []fw.Case {
 		}
 		for i := 0; i < m; i++ {
 			cs = append(cs, fw.Case{Kind: "resume", Variant: v, Seed: gen.Sub(seed, "c09", i), P: map[string]int64{
-				"procs": procs[i%4], "skipmask": masks[(i/4)%8], "singlekind": int64(b2i(i%3 != 0)), "noheader": int64(b2i(i%13 == 12)), "bigblock": int64(b2i(i%16 == 9 || i%16 == 2))}})
+				"procs": procs[i%4], "skipmask": masks[(i/4)%8], "singlekind": int64(b2i(i%3 != 0)), "noheader": int64(b2i(i%13 == 12)), "bigblock": int64(b2i(i%16 == 9 || i%16 == 2)), "pred": []int64{0, 0, 2, 0, 3, 0, 1, 0, 0, 5, 0}[i%11]}})
 		}
 	}
 	nsame := 12
@@ -458,7 +474,7 @@ func init() {
 	fw.Register(&fw.Prop{
 		ID:    "C09",
 		Level: "fault_enumeration",
-		Rule: "PRNG files of 4-15 blocks (<=200 objects, an eighth of them with one block of 8000-16001 nodes); every stop position k=0..N of each file is observed (offsets read after every Scan), a resume scan is run for every distinct reported offset and for the previous offset, plus real Scan×k→Close→resume histories for k in {0,1,N/2,N-1,N}; skip masks that create fully empty blocks; decoders {1,2,4,16}; Close -> Seek -> new scanner on one shared-position handle with a slow medium; a virtual 4.1 GiB stream (offsets beyond 32 bits). " +
+		Rule: "PRNG files of 4-15 blocks (<=200 objects, an eighth of them with one block of 8000-16001 nodes); every stop position k=0..N of each file is observed (offsets read after every Scan), a resume scan is run for every distinct reported offset and for the previous offset, plus real Scan×k→Close→resume histories for k in {0,1,N/2,N-1,N}; skip masks that create fully empty blocks, in half of the cases combined with filter callbacks rejecting by id (every 2nd, 3rd, 5th, or every element), also on header-less and big-block files; decoders {1,2,4,16}; Close -> Seek -> new scanner on one shared-position handle with a slow medium; a virtual 4.1 GiB stream (offsets beyond 32 bits). " +
 			"Signature = (decoders, skip mask, file has empty blocks, header present, block-count class).",
 		Assumptions: []string{
 			"after the terminal Scan()==false trailing fully-skipped blocks may have advanced the offset, so offset equalities are asserted only after a Scan that returned true (and for k=0); for the terminal position only the resume consequence is asserted",
